@@ -1,10 +1,12 @@
 #!/venv/bin/python
 """Generate seeded/RESULTS.md from the meta.json files."""
-import glob, json, os
+import glob, json, os, collections
 rows = []
+first_missed = []          # missed by the checks as they were when the change arrived, caught now
+per_prop = collections.OrderedDict()
 for m in sorted(glob.glob('/verif/seeded/*/meta.json')):
     d = json.load(open(m))
-    v = d.get('verified', {})
+    v = d.get('verified') or {}
     name = os.path.basename(os.path.dirname(m))
     ok = (v.get('patch_applies') and v.get('demo_unchanged_exit') == 0 and v.get('demo_with_change_exit') not in (0, None)
           and 'passed' in str(v.get('suite_with_change', '')) and 'failed' not in str(v.get('suite_with_change', '')))
@@ -13,15 +15,39 @@ for m in sorted(glob.glob('/verif/seeded/*/meta.json')):
     for k in det[:1]:
         fs = v['detection'][k].get('first_sites') or []
         sites = '; '.join(s.replace('site=', '').split(' count=')[0] for s in fs[:2])
-    rows.append((name, d.get('property'), str(d.get('what_changed', ''))[:110].replace('|', '/'),
+    hist = d.get('evaluation_history') or []
+    own = d.get('property')
+    # first evaluation that ran the property's own check in both tiers (or found it)
+    first = None
+    for h in hist + [{'detected_by': det, 'checks_run': sorted((v.get('detection') or {}).keys())}]:
+        if any(c.startswith(own + '/') for c in (h.get('checks_run') or [])):
+            first = h
+            break
+    missed_first = bool(first is not None and not (first.get('detected_by') or []) and det)
+    if missed_first:
+        first_missed.append((name, ', '.join(det), sites[:140]))
+    rows.append((name, own, str(d.get('what_changed', ''))[:110].replace('|', '/'),
                  str(d.get('needs_to_manifest', ''))[:110].replace('|', '/'), 'yes' if ok else 'NO',
-                 ', '.join(det) if det else 'MISSED', sites[:160].replace('|', '/')))
+                 ', '.join(det) if det else 'MISSED', sites[:160].replace('|', '/'),
+                 'missed at first' if missed_first else ''))
+    pp = per_prop.setdefault(own, [0, 0, 0, 0])
+    pp[0] += 1
+    pp[1] += bool(ok)
+    pp[2] += bool(ok and det)
+    pp[3] += bool(ok and det and any(k.endswith('/quick') for k in det))
 with open('/verif/seeded/RESULTS.md', 'w') as f:
     f.write('# Independently seeded changes and what the checks report\n\n'
-            'confirmed = patch applies, demo exits 0 on /repo and non-zero with the patch, repository suite passes with the patch.\n\n'
-            '| id | property | change | needs to manifest | confirmed | detected by | first sites |\n|---|---|---|---|---|---|---|\n')
+            'confirmed = patch applies, demo exits 0 on /repo and non-zero with the patch, repository suite passes '
+            'with the patch. "missed at first" = the check as it was when the change arrived stayed silent in both '
+            'tiers; it was strengthened afterwards (DESIGN.md 6.2).\n\n')
+    f.write('| property | changes | confirmed | detected | of these by the quick tier |\n|---|---|---|---|---|\n')
+    for p, (a, b, c, q) in per_prop.items():
+        f.write('| %s | %d | %d | %d | %d |\n' % (p, a, b, c, q))
+    n = len(rows); c = sum(1 for r in rows if r[4] == 'yes'); dct = sum(1 for r in rows if r[4] == 'yes' and r[5] != 'MISSED')
+    f.write('\n%d changes, %d confirmed, %d of the confirmed ones detected (%d of them only after the check was '
+            'strengthened).\n\n' % (n, c, dct, len(first_missed)))
+    f.write('| id | property | change | needs to manifest | confirmed | detected by | first sites | note |\n'
+            '|---|---|---|---|---|---|---|---|\n')
     for r in rows:
         f.write('| ' + ' | '.join(r) + ' |\n')
-    n = len(rows); c = sum(1 for r in rows if r[4] == 'yes'); dct = sum(1 for r in rows if r[4] == 'yes' and r[5] != 'MISSED')
-    f.write('\n%d changes, %d confirmed, %d of the confirmed ones detected.\n' % (n, c, dct))
-print(open('/verif/seeded/RESULTS.md').read()[-400:])
+print(open('/verif/seeded/RESULTS.md').read()[:1800])
